@@ -387,3 +387,13 @@ V("c20-tof-from-detection-time", "C20", "violation", "C20.R3", edits=[(IODF, "  
 V("c20-fg-velocity-sign", "C20", "violation", "C20.R3", edits=[(LMF, "    current_velocity = (gauss_g_dot * current_position - initial_position) / gauss_g", "    current_velocity = (gauss_g_dot * current_position + initial_position) / gauss_g")])
 V("c20-universal-gdot", "C20", "violation", "C20.R3", edits=[(LMF, "    gauss_g_dot = 1.0 - y_new / r_mag\n    return _calculateVelocities(initial_position, current_position, gauss_f, gauss_g, gauss_g_dot)", "    gauss_g_dot = 1.0 - y_new / r0_mag\n    return _calculateVelocities(initial_position, current_position, gauss_f, gauss_g, gauss_g_dot)")])
 V("c20-n-named-args", "C20", "pass", edits=[(IODF, "        initial_position = radarObs2eciPosition(previous_observation[-1])", "        initial_position = radarObs2eciPosition(previous_observation[-1])  # position only")])
+
+# ------------------------------------------------------------------------------------ C01 (R8)
+SIF = "dynamics/integration_events/scheduled_impulse.py"
+V("c01-impulse-not-terminal", "C01", "violation", "C01.R8", edits=[("dynamics/integration_events/discrete_state_change_event.py", "    terminal = True\n", "    terminal = False\n")])
+V("c01-impulse-in-position-slots", "C01", "violation", "C01.R8", edits=[(SIF, "        self.thrust = concatenate((zeros(3), delta_v))", "        self.thrust = concatenate((delta_v, zeros(3)))")])
+V("c01-impulse-time-from-end", "C01", "violation", "C01.R8", edits=[("data/events/scheduled_impulse.py", "        start_jd = JulianDate(self.start_time_jd)", "        start_jd = JulianDate(self.end_time_jd + 1.0 / 86400.0)")])
+V("c01-impulse-applied-twice", "C01", "violation", "C01.R8", edits=[(CLF, "                    current_state += event.getStateChange(current_time, current_state[:, 0])[\n                        :,\n                        None,\n                    ]\n", "                    current_state += 2 * event.getStateChange(current_time, current_state[:, 0])[\n                        :,\n                        None,\n                    ]\n")])
+V("c01-removal-kinds-swapped", "C01", "violation", "C01.R8", edits=[("data/events/agent_removal.py", "        if self.agent_type == self.AgentType.TARGET.value:\n            scope_instance.removeTarget(self.agent_id, self.tasking_engine_id)", "        if self.agent_type == self.AgentType.SENSOR.value:\n            scope_instance.removeTarget(self.agent_id, self.tasking_engine_id)")])
+V("c01-added-target-no-estimate", "C01", "violation", "C01.R8", edits=[(SC, "        self._estimate_agents[target_spec.id] = estimate_agent\n", "")])
+V("c01-ntw-impulse-not-rotated", "C01", "violation", "C01.R8", edits=[(SIF, "        return ntw2eci(state, self.thrust)", "        return self.thrust")])
